@@ -41,16 +41,15 @@ theorem C19_cancel_enabled (s : St) (k dl : Nat) (opn : Bool) (hw : s.cpc k = .w
     (step? s (.cCancel k (s.handlers k))).isSome = true := by
   simp [step?, hw]
 
-/-- SLOT RELEASED (partial: calls whose send did not fail after the
-    registration): a call that has left its select has no handler registered -/
+/-- SLOT RELEASED: a call that has returned — with a response, by timeout, by
+    cancellation or because its send failed after the registration — has no
+    handler registered -/
 theorem C19_slot_released {s : St} (h : Reachable s) (k t : Nat) (hl : leftAt (s.cpc k) = some t) : s.handlers k = false :=
   ((reachable_invT h).left k t hl).2
 
-/-- FINDING C19.failed-send-leaks-handler: a request whose context is already
-    done (or that fails to encode / write) has registered its handler, returns
-    the error at once and never pops it -/
-theorem C19_finding_failed_send_leaks :
-    (run? (init 1 5000) [.cSendFail 0]).map (fun s => (s.cpc 0, s.handlers 0)) = some (.finished 0 .sendError, true) := by
+/-- in particular a failed send releases its slot at once (the handler leak is repaired) -/
+theorem C19_failed_send_releases :
+    (run? (init 1 5000) [.cSendFail 0]).map (fun s => (s.cpc 0, s.handlers 0)) = some (.finished 0 .sendError, false) := by
   decide
 
 /-- NO WEDGE, partial (guard `SendTimeout.Guard`: an `open()` does not time out /
